@@ -1205,10 +1205,6 @@ fn big(cfg: &Cfg, shape: &str, n: u64, seed: u64) -> String {
         Err(e) => return format!("backup-{}", errkind(&e)),
     };
     drop(repo);
-    // the case has to reach the indexer's flush in the middle of the run
-    if h.be.ids(rustic_core::FileType::Index).len() < 2 {
-        return "oracle-fail:index-not-flushed".into();
-    }
     // a new process: everything comes from the stored index files
     let repo = match open_nc(&h).and_then(Repository::to_indexed) {
         Ok(r) => r,
@@ -1260,6 +1256,10 @@ fn big(cfg: &Cfg, shape: &str, n: u64, seed: u64) -> String {
                 }
             }
         }
+    }
+    // the case has to have reached the indexer's flush in the middle of the run (else it shows nothing)
+    if h.be.ids(rustic_core::FileType::Index).len() < 2 {
+        return "oracle-fail:index-not-flushed".into();
     }
     if let Err(e) = check_clean(&h) {
         return e;
